@@ -76,6 +76,8 @@ RULE = (
     "and the terminal modes were observed switched on"
 )
 ASSUMES = [
+    "each session runs in its own process forked from a template interpreter that has only imported urwid and the loop libraries (no loop, reactor, screen or signal handler was ever created in it); 12 sessions per run are repeated in brand-new interpreters (subprocess.run) and must agree (fresh_vs_forked_agree), VERIF_C12_FRESH=1 and --replay use brand-new interpreters throughout",
+    "callbacks that run between an injected fault and the end of run() are counted, not judged (asyncio/tornado/twisted/trio stop at the end of the current loop iteration); a fault that does not end run() before the session's own scripted exit is a violation",
     "'window resize' is an input event seen by the input filter only (MainLoop documents that it handles resizing itself); it is not expected at the widget",
     "the pop-up routing model: with pop_ups=True a key goes to the pop-up widget while one is open, a mouse event goes to it iff it lies inside the pop-up rectangle",
     "the logical redraw rule (>= 50 ms between an event and a later alarm's due time => a redraw of that state lies between them) stands for 'before the loop next waits'; because a descheduled process can fake its precondition, an RDW violation is reported only if two re-executions of the same session show it again",
